@@ -1104,10 +1104,16 @@ func (w *World) loopCoversGroups(l *loopInfo) bool {
 	if k, ok := constInt(co.bound); ok && k == nGroups {
 		return true
 	}
-	if lc, ok := co.bound.(*ssa.Call); ok && isBuiltinCall(&lc.Call, "len") {
-		x := lc.Call.Args[0]
+	// all of the groups: the array itself, or a slice of it from its first to its last element
+	var allGroups func(x ssa.Value, d int) bool
+	allGroups = func(x ssa.Value, d int) bool {
 		if sl, ok := x.(*ssa.Slice); ok {
 			if f, ok := fieldOf(sl.X); ok && f.Name == "decorGroups" {
+				if sl.Low != nil {
+					if k, ok := constInt(sl.Low); !ok || k != 0 {
+						return false
+					}
+				}
 				if sl.High == nil {
 					return true
 				}
@@ -1123,6 +1129,30 @@ func (w *World) loopCoversGroups(l *loopInfo) bool {
 		if f, ok := loadedField(x); ok && f.Name == "decorGroups" {
 			return true
 		}
+		// a helper's parameter: every caller hands it all of the groups
+		if par, ok := x.(*ssa.Parameter); ok && d < 2 {
+			h := par.Parent()
+			idx := -1
+			for i, q := range h.Params {
+				if q == par {
+					idx = i
+				}
+			}
+			sites := w.callers[h]
+			if len(sites) == 0 || idx < 0 {
+				return false
+			}
+			for _, site := range sites {
+				if site.Common().StaticCallee() != h || idx >= len(site.Common().Args) || !allGroups(site.Common().Args[idx], d+1) {
+					return false
+				}
+			}
+			return true
+		}
+		return false
+	}
+	if lc, ok := co.bound.(*ssa.Call); ok && isBuiltinCall(&lc.Call, "len") {
+		return allGroups(lc.Call.Args[0], 0)
 	}
 	return false
 }
